@@ -623,6 +623,32 @@ def register(reg):
             s = c.self
             return [("limits_nonnegative", z3.And(F(c, s, "Pool._max_connections") >= 0, F(c, s, "Pool._max_keepalive_connections") >= 0))]
 
+        def _pool_budget(self, c, kwt):
+            """C16 ("raises PoolTimeout at that moment - not earlier, not later"), from the property: whatever number of times the
+            request goes back to waiting (a connection it was given turned out unavailable), each wait is limited by what is
+            LEFT of its pool timeout: None if none was configured, else max(first clock reading + pool timeout - now, 0), with
+            `now` read after the last suspension point (design_probes/p35: the timeout used to start again from zero)."""
+            req = c.args["request"]
+            conf = timeout_of(F(c, req, "Request.extensions"), "pool")
+            got = c.eng.to_val(c.st, kwt).t
+            clocks = [e for e in c.trace if e.name == "time.monotonic"]
+            if not clocks:
+                return z3.And(conf == none_val, got == none_val)
+            rov = z3.Function("real_of_val", ValS, RealS)
+            t0 = clocks[0].data["value"].t
+            now = clocks[-1].data["value"].t
+            idx = [i for i, e in enumerate(c.trace) if e.name == "suspend"]
+            fresh = (not idx) or c.trace.index(clocks[-1]) > idx[-1] or len(clocks) == 1
+            left = t0 + rov(conf) - now
+            budget = z3.If(left > 0, left, z3.RealVal(0))
+            fresh_ok = z3.BoolVal(len(clocks) >= 2 and ((not idx) or c.trace.index(clocks[-1]) > idx[-1]))
+            k = c.eng.unbox(c.st, kwt)
+            if isinstance(k, VNone):
+                return conf == none_val
+            if isinstance(k, (VReal, VInt)):
+                return z3.And(conf != none_val, fresh_ok, c.eng.coerce(c.st, k, "real").t == budget)
+            return z3.If(conf == none_val, got == none_val, z3.And(fresh_ok, got != none_val, rov(got) == budget))
+
         def _pr(self, c):
             # this flow's pool request: the object it appended to the queue (whatever the local is called)
             mine = [e for e in c.trace if e.name == "list.append" and e.data["target"] == "Pool._requests"]
@@ -705,7 +731,7 @@ def register(reg):
             if ev.name == "call:" + PR + ".wait_for_connection":
                 kwt = ev.data["kwargs"].get("timeout", ev.data["args"][0] if ev.data["args"] else NONE)
                 out += [
-                    ("waits_with_the_requests_pool_timeout", ("C16",), c.eng.to_val(c.st, kwt).t == timeout_of(F(c, req, "Request.extensions"), "pool")),
+                    ("waits_with_the_requests_pool_timeout", ("C16",), self._pool_budget(c, kwt)),
                     ("waits_outside_the_pool_lock", ("C07", "C08"), not pool_lock_held(c, s)),
                     ("waits_on_own_pool_request", ("C07",), ev.data["self"].t == pr.t if pr is not None else False),
                     ("waits_only_after_an_assignment_pass", ("C07",), len(c.since_cut({"call:" + ASSIGN})) >= 1),
